@@ -344,7 +344,10 @@ def simulate(flat: Flat, emulate_stale=False, emulate_sampled_start=False, prese
         source as the pass-through result of a nested call (it is not woken at all); None: an ordinary tick."""
         if not sampled_inputs or t != start or r.target.uid not in sampled_inputs:
             return None
-        if len([p for p in r.via if p[0] == "nested"]) >= 2:
+        nv = [p for p in r.via if p[0] == "nested"]
+        if len(nv) >= 2 and [p for p in i.path if p[0] == "nested"] == nv[:-1]:
+            # only a reader living in the graph the pass-through call returns into: a reader further down (the port handed on
+            # into another nested call) is scheduled by that call's own start because the value is valid -> 'inner'
             R.stats["nested_sampled_unmodified"] = R.stats.get("nested_sampled_unmodified", 0) + 1
             return "via"
         kn = innermost_nested(i.path)
@@ -418,6 +421,8 @@ def simulate(flat: Flat, emulate_stale=False, emulate_sampled_start=False, prese
         elif i.op == "sched":
             s.evalno = 0
             run_sched_ops(i, s, start, 0, started=False)
+            if emulate_stale and s.slot is not None and all(ev[0] != s.slot for ev in s.sched.events):
+                R.stale_armed.append((i.uid, start, s.slot))     # cancelled again within the start hook
         elif i.op == "const":
             s.queue = {start: int(i.kw.get("v", 0))}
         elif i.op == "fb":
